@@ -228,6 +228,31 @@ func checkRoundTrip(c rtCase, r *h.Rec) error {
 	if !bytes.Equal(in, padded) {
 		return fmt.Errorf("Unpad modified its input")
 	}
+	// Scribble discipline: callers encrypt the padded block in place and reuse
+	// buffers. Overwrite everything the first calls returned (whole capacity),
+	// then pad and unpad the same message again with the same padder and with a
+	// fresh one: results must not depend on memory handed out earlier (a result
+	// aliasing a shared or cached array would now carry the scribble).
+	scribble := func(b []byte) {
+		b = b[:cap(b)]
+		for i := range b {
+			b[i] = 0xEE ^ byte(i)
+		}
+	}
+	scribble(padded)
+	scribble(out)
+	for k, q := range []padding.Padding{p, newScheme(c.Scheme, c.BS)} {
+		again := q.Pad(append(make([]byte, 0, c.Len), orig...))
+		if !bytes.Equal(again, want) {
+			return fmt.Errorf("Pad after earlier results were overwritten (padder %d) = %x, documented form %x", k, again, want)
+		}
+		back, err := q.Unpad(append([]byte{}, want...))
+		if err != nil || !bytes.Equal(back, orig) {
+			return fmt.Errorf("Unpad after earlier results were overwritten (padder %d) = %x, %v; want %x", k, back, err, orig)
+		}
+		scribble(again)
+		scribble(back)
+	}
 	return nil
 }
 
